@@ -5,6 +5,7 @@ use std::panic::catch_unwind;
 use std::panic::AssertUnwindSafe;
 use std::sync::atomic::Ordering;
 
+use raft_log::api::raft_log_writer::RaftLogWriter;
 use serde_json::json;
 
 use crate::model::hist_short;
@@ -180,7 +181,112 @@ pub fn run_grid(spec: &SeqSpec, hist: &[Op], m: &RefLog, rep: &mut Vec<Violation
             }
             let _ = sut.flush_wait();
         }
+        // `update_state` is public too: the caller can install a state whose
+        // `last` (the only field settable from outside, through `set_last`)
+        // and user data are arbitrary, i.e. inconsistent with the index. No
+        // operation may panic on such a state either.
+        for last in state_probes(m) {
+            stats.probes.fetch_add(1, Ordering::Relaxed);
+            let Some(mut sut) = replay_hist(hist, cfg) else { continue };
+            if let Some((step, msg)) = run_state_probe(&mut sut, last) {
+                rep.push(pvio(
+                    spec,
+                    format!("panic:update_state(last={})-then-{}", last_class(last, m), step),
+                    format!("update_state with last={:?}, then {}: panicked: {}", last, step, msg),
+                    hist,
+                    cfg,
+                    json!({"op": "update_state", "last": last.map(|l| vec![l.0, l.1])}),
+                ));
+            }
+        }
     }
+}
+
+pub fn state_probes(m: &RefLog) -> Vec<Option<crate::vt::LogId>> {
+    let mut v = vec![None];
+    for t in term_grid(m) {
+        for i in index_grid(m) {
+            v.push(Some((t, i)));
+        }
+    }
+    v
+}
+
+fn last_class(last: Option<crate::vt::LogId>, m: &RefLog) -> String {
+    match last {
+        None => "None".to_string(),
+        Some(l) if l.1 >= u64::MAX - 1 => "index-at-limit".to_string(),
+        Some(l) if Some(l) > m.st.last => "above-last".to_string(),
+        Some(l) if Some(l) == m.st.last => "equal-last".to_string(),
+        Some(_) => "below-last".to_string(),
+    }
+}
+
+/// Installs a state with the given `last` through the public `update_state`
+/// and exercises every public operation on it. Returns the step that
+/// panicked, if any.
+pub fn run_state_probe(sut: &mut Sut, last: Option<crate::vt::LogId>) -> Option<(String, String)> {
+    let mut steps: Vec<(String, Box<dyn FnOnce(&mut Sut)>)> = vec![];
+    steps.push(("update_state".into(), Box::new(move |s: &mut Sut| {
+        let mut st = s.rl().log_state().clone();
+        st.set_last(last);
+        st.user_data = Some("probe".to_string());
+        let _ = s.rl_mut().update_state(st);
+    })));
+    let observers = |s: &mut Sut| {
+        let rl = s.rl();
+        let _ = rl.read(0, u64::MAX).take(64).count();
+        let _ = rl.stat();
+        let _ = rl.on_disk_size();
+        let mut d = rl.dump_data();
+        let _ = d.iter().count();
+    };
+    steps.push(("observers".into(), Box::new(observers)));
+    let next = last.map(|l| l.1.wrapping_add(1)).unwrap_or(0);
+    let term = last.map(|l| l.0).unwrap_or(1);
+    let idxs: Vec<u64> = {
+        let mut v = vec![0, next, next.wrapping_sub(1), next.wrapping_add(1)];
+        v.sort();
+        v.dedup();
+        v
+    };
+    for i in idxs.clone() {
+        steps.push((format!("truncate({})", i), Box::new(move |s: &mut Sut| {
+            let _ = s.rl_mut().truncate(i);
+        })));
+    }
+    steps.push((format!("append(({},{}))", term, next), Box::new(move |s: &mut Sut| {
+        let _ = s.rl_mut().append(vec![((term, next), "probe".to_string())]);
+    })));
+    steps.push(("observers-after-append".into(), Box::new(observers)));
+    for i in idxs {
+        steps.push((format!("commit(({},{}))", term, i), Box::new(move |s: &mut Sut| {
+            let _ = s.rl_mut().commit((term, i));
+        })));
+        steps.push((format!("purge(({},{}))", term, i), Box::new(move |s: &mut Sut| {
+            let _ = s.rl_mut().purge((term, i));
+        })));
+        steps.push((format!("observers-after-purge({})", i), Box::new(observers)));
+    }
+    steps.push(("flush".into(), Box::new(|s: &mut Sut| {
+        let _ = s.flush_wait();
+    })));
+    steps.push(("restart".into(), Box::new(|s: &mut Sut| {
+        let cfg = s.cfg;
+        if s.reopen(cfg).is_ok() {
+            let _ = s.rl().read(0, u64::MAX).take(64).count();
+        }
+    })));
+    for (name, f) in steps {
+        if sut.rl.is_none() {
+            break;
+        }
+        let r = catch_unwind(AssertUnwindSafe(|| f(sut)));
+        if let Err(p) = r {
+            return Some((name, panic_msg(p)));
+        }
+    }
+    None
 }
 
 /// Re-executes one recorded probe: history, then the probed call.
@@ -204,6 +310,12 @@ pub fn replay(prop: &str, r: &serde_json::Value) -> i32 {
             format!("{} entries", d.iter().count())
         }))
         .map_err(panic_msg)
+    } else if p["op"] == "update_state" {
+        let last = p["last"].as_array().map(|a| (a[0].as_u64().unwrap_or(0), a[1].as_u64().unwrap_or(0)));
+        match run_state_probe(&mut sut, last) {
+            Some((step, m)) => Err(format!("at step {}: {}", step, m)),
+            None => Ok("no panic".to_string()),
+        }
     } else {
         let op = crate::seqx::op_from_json(&p["op"]);
         match sut.call(&op) {
